@@ -11,7 +11,7 @@ R5  rational: comparison operators are mutual duals, subtraction = addition of t
 """
 from ..expr import LocalEnv, canon, show
 from ..facts import AnalysisBroken, short, src, walk
-from ..tables import enum_paths
+from ..tables import enum_paths, norm_literal
 
 # ---------------------------------------------------------------------------------------------------------------------------
 # tiny symbolic algebra: a value is a frozenset of terms (sign, atom, scale); atom = 'P0.rat', 'this.known_term', 'P1' ...
@@ -577,9 +577,9 @@ def r5(ctx, fs):
                 sign = None
                 for c in p.conds:
                     if c[0] == 'if':
-                        ct = canon(c[1], env, subst=False)
-                        if ct == ('<=', ('num', 0), num_t):
-                            sign = c[2]
+                        ct, pol = norm_literal(canon(c[1], env, subst=False), c[2])      # `num >= 0` is a failed `num < 0`
+                        if ct == ('<', num_t, ('num', 0)):
+                            sign = not pol
                 vals = {}
                 for s in p.stmts:
                     t = canon(s, env, subst=False)
